@@ -106,3 +106,40 @@ M('c06_flop_early_return', ['C06', 'C15'], ['C06-R2'], 'fill returns early leavi
    '                self.flop.push(node);\n            }\n            if num_taken == 7 {\n                return num_taken;\n            }\n        }\n\n        self.flip.append(&mut self.flop);\n\n        num_taken\n    }\n\n    pub(crate) fn fill_with_len_prefix('))
 M('c06_apply_update_self', ['C06', 'C09'], ['C06-R2', 'C09-R3'], 'handle_data only rejects own-address data when the identity differs',
   (LIB, 'if header.src == self.identity || header.src.addr() == self.identity.addr() {', 'if header.src != self.identity && header.src.addr() == self.identity.addr() {'))
+
+# ---------------------------------------------------------------- C07
+PAYLOAD = 'src/payload.rs'
+M('c07_turnundead_allows_custom', ['C07', 'C16'], ['C07-R3'], 'TurnUndead may carry custom broadcasts (the v0.17.2 bug)',
+  (PAYLOAD, '!matches!(self, Self::Announce | Self::TurnUndead)\n', '!matches!(self, Self::Announce)\n'))
+M('c07_broadcast_piggybacks', ['C07', 'C15'], ['C07-R3'], 'Broadcast datagrams get a member section',
+  (PAYLOAD, '!matches!(self, Self::Announce | Self::TurnUndead | Self::Broadcast)', '!matches!(self, Self::Announce | Self::TurnUndead)'))
+M('c07_feed_picker_dropped', ['C07'], ['C07-R6'], 'Feed may list the receiver itself',
+  (LIB, '                    |member| member != &dst,\n', '                    |_member| true,\n'))
+M('c07_count_before_encode', ['C07'], ['C07-R4'], 'member counted before it is encoded',
+  (LIB, '                    let pos = buf.get_ref().len();\n', '                    num_items += 1;\n                    let pos = buf.get_ref().len();\n'),
+  (LIB, '                        break;\n                    }\n                    num_items += 1;\n', '                        break;\n                    }\n'))
+M('c07_truncate_dropped', ['C07', 'C20'], ['C07-R4'], 'half-encoded member left in the datagram',
+  (LIB, '                        buf.get_mut().truncate(pos);\n', ''))
+M('c07_header_incarnation_zero', ['C07', 'C10'], ['C07-R1'], 'header carries incarnation 0 instead of the current one',
+  (LIB, '            src_incarnation: self.incarnation,\n            dst: dst.clone(),', '            src_incarnation: Incarnation::default(),\n            dst: dst.clone(),'))
+M('c07_header_dst_self', ['C07'], ['C07-R1'], 'header destination is not the identity the datagram is handed over for',
+  (LIB, '            src_incarnation: self.incarnation,\n            dst: dst.clone(),', '            src_incarnation: self.incarnation,\n            dst: self.identity.clone(),'))
+M('c07_count_threshold_raised', ['C07'], ['C07-R5'], 'count omitted although custom items may still fit',
+  (LIB, 'if header.message.needs_piggyback() && buf.remaining_mut() > 2 {', 'if header.message.needs_piggyback() && buf.remaining_mut() > 5 {'))
+M('c07_feed_in_drain_loop', ['C07'], ['C07-R7'], 'Feed sent while draining choice_buf (send_message refills it)',
+  (LIB, 'self.choose_and_send(params.num_members.get(), Message::Announce, runtime)?;', 'self.choose_and_send(params.num_members.get(), Message::Feed, runtime)?;'))
+M('c07_len_prefix_little_endian', ['C07', 'C16'], ['C07-R5'], 'item length written little-endian, read big-endian',
+  (BROADCAST, 'buffer.put_u16(node.data.len() as u16);', 'buffer.put_u16_le(node.data.len() as u16);'))
+M('c07_reader_predicate_changed', ['C07'], ['C07-R5'], 'reader skips the member section for Gossip instead of Broadcast',
+  (LIB, 'if remaining >= 2 && header.message != Message::Broadcast {', 'if remaining >= 2 && header.message != Message::Gossip {'))
+M('c07_patch_off_by_one', ['C07'], ['C07-R4'], 'count field says one more than what follows',
+  (LIB, 'buf.get_mut()[tally_position..].as_mut().put_u16(num_items);', 'buf.get_mut()[tally_position..].as_mut().put_u16(num_items + 1);'))
+M('c07_limit_unbounded', ['C07'], ['C07-R1'], 'packet buffer no longer limited to max_packet_size',
+  (LIB, 'let mut buf = mem::take(&mut self.send_buf).limit(self.config.max_packet_size.get());', 'let mut buf = mem::take(&mut self.send_buf).limit(usize::MAX);'))
+M('c07_raw_push_after_header', ['C07'], ['C07-R2'], 'a byte pushed on the inner Vec, bypassing the limit',
+  (LIB, '        // If we\'re piggybacking data, we need at least 2 extra bytes\n', '        buf.get_mut().push(0);\n        // If we\'re piggybacking data, we need at least 2 extra bytes\n'))
+M('c07_updates_in_feed', ['C07', 'C15'], ['C07-R3'], 'cluster updates piggybacked instead of active members on Feed',
+  (LIB, '            if header.message.piggyback_only_active() {\n                self.choice_buf.clear();', '            if !header.message.piggyback_only_active() {\n                self.choice_buf.clear();'))
+M('c07_custom_gate_dropped', ['C07', 'C16'], ['C07-R3'], 'custom broadcasts attached without asking the handler',
+  (LIB, '            && header.message.allow_custom_broadcasts()\n            // Unless the broadcast handler says no\n            && self.broadcast_handler.should_add_broadcast_data(&dst);',
+   '            && header.message.allow_custom_broadcasts();'))
